@@ -224,6 +224,7 @@ type CellOpt struct {
 	MaxMenu   uint32 // cap on a single menu (marks the cell too wide)
 	MaxLeaves int64  // stop after this many executions (marks the cell capped)
 	Dev       int    // deviation bound (-1: complete product)
+	Chunk     int    // if > 0 the source delivers at most this many bytes per Read call
 }
 
 // CellStats summarises an exploration.
@@ -247,6 +248,9 @@ func exploreCell(g func() (*spg.Password, error), opt CellOpt, visit func(l *Lea
 		src := &cellSource{ch: ch, fallback: opt.Fallback, maxMenu: opt.MaxMenu}
 		t := tape.New(src)
 		src.t = t
+		if opt.Chunk > 0 {
+			t.ChunkAt, t.Chunks, t.ChunkCycle = 1, []int{opt.Chunk}, true
+		}
 		install(t)
 		out := runGen(g)
 		t.EndCall()
